@@ -171,6 +171,11 @@ func (m *wModel) checkFrame(opi int) {
 		j.add("frame-content", contentKey(f.Content, m.accepted), "W%d op %d (close): decoded content (%d bytes) differs from accepted input (%d bytes): %s", m.wi, opi, len(f.Content), len(m.accepted), diffAt(f.Content, m.accepted))
 		return
 	}
+	for _, b := range f.Blocks {
+		if b.Raw {
+			j.out.Probes.Add("raw.block.emitted", 1)
+		}
+	}
 	if m.optsKnown {
 		m.checkOptions(opi, f)
 	}
@@ -604,7 +609,7 @@ func (j *judge) judgeReaderBasic(ri int) {
 		// A source error must surface unless it was delivered together with
 		// the very last bytes of a complete frame (then, like data returned
 		// with io.EOF, the reader already has everything it needs).
-		srcFault := src.FaultPos >= 0 && !(v.valid && !v.f.Legacy && src.FaultPos >= v.f.Consumed)
+		srcFault := src.FaultPos >= 0 && !(v.valid && (!v.f.Legacy || v.f.KernelTotal) && src.FaultPos >= v.f.Consumed)
 		sinkFault := op.Op == "writeto" && r.SinkFaultAt >= 0
 		if r.ZeroNil > 8 {
 			j.add("no-progress", "read-zero-nil", "R%d op %d: Read keeps returning (0, nil)", ri, opi)
@@ -618,6 +623,15 @@ func (j *judge) judgeReaderBasic(ri int) {
 		outOfScope := v.f.HeaderAnomaly()
 		if outOfScope {
 			j.out.Probes.Add("header.anomaly", 1)
+		}
+		if op.Op == "drain" && v.f.BlockMax > 0 {
+			for _, sz := range op.Sizes {
+				if sz >= v.f.BlockMax {
+					j.out.Probes.Add("decode.direct", 1)
+				} else {
+					j.out.Probes.Add("decode.buffered", 1)
+				}
+			}
 		}
 		// never wrong data
 		if !outOfScope && !isPrefix(D, v.content) {
